@@ -27,6 +27,8 @@ type Entry struct {
 	Outcome  string   // "answer", "rcode:N", "status:N", "transport", "bad-query", or a body fault kind
 	Reply    *Msg     // the message answered, before any body fault (nil if none)
 	Fault    int      // index of the zone fault that fired, -1 if none
+	// HTTPCache: the reply carried HTTP caching headers (Age, Cache-Control).
+	HTTPCache string
 }
 
 // Reply is what the RoundTripper hands back for one request.
@@ -65,6 +67,9 @@ type Server struct {
 	Latency func(seq int) time.Duration
 	// Yield, if set, is called once per request (PRNG-placed runtime.Gosched).
 	Yield func(seq int)
+	// Headers, if set, adds HTTP headers to the reply of request seq (the
+	// caching vocabulary of RFC 8484 section 5.1: Age, Cache-Control).
+	Headers func(seq int) http.Header
 	// Override, if set and returning non-nil, replaces the reply.
 	Override func(e *Entry) *Reply
 	Enc      EncodeOpts
@@ -252,6 +257,17 @@ func (s *Server) RoundTrip(req *http.Request) (*http.Response, error) {
 			rep = r
 		}
 	}
+	var extra http.Header
+	if s.Headers != nil && rep.Err == nil {
+		extra = s.Headers(seq)
+		var parts []string
+		for _, k := range []string{"Age", "Cache-Control"} {
+			if v := extra.Get(k); v != "" {
+				parts = append(parts, k+": "+v)
+			}
+		}
+		e.HTTPCache = strings.Join(parts, "; ")
+	}
 	s.mu.Lock()
 	e.Done = time.Since(s.start)
 	e.TickDone = s.Tick()
@@ -262,6 +278,9 @@ func (s *Server) RoundTrip(req *http.Request) (*http.Response, error) {
 		return nil, rep.Err
 	}
 	h := http.Header{}
+	for k, v := range extra {
+		h[k] = v
+	}
 	h.Set("Content-Type", "application/dns-message")
 	cl := int64(len(rep.Body))
 	if rep.CL == nil {
